@@ -963,6 +963,14 @@ class StmtMixin:
             if s.exc is not None:
                 out.append(s)
                 continue
+            if isinstance(it, VOpt):
+                # iterating an Optional: None is not iterable
+                isnone, some = self.branch(s, it.is_none())
+                if isnone is not None:
+                    out.append(self.raise_exc(isnone, 'builtins:TypeError'))
+                if some is None:
+                    continue
+                s, it = some, it.some()
             out.extend(self.for_over(s, n, it))
         return out
 
